@@ -15,6 +15,7 @@ def build(sc):
     return locals()
 
 class MyBase(BaseException): pass
+class UpstreamTimeout(TimeoutError): pass
 
 async def one(cfg):
     from taskiq import InMemoryBroker, TaskiqMiddleware, AckableMessage, TaskiqDepends, Context
@@ -69,6 +70,7 @@ async def one(cfg):
     def body(x, d):
         ev.append(('task_start', x, d))
         if outcome == 'raise': ev.append(('task_end',)); raise ValueError("boom")
+        if outcome == 'raise_timeout_subclass': ev.append(('task_end',)); raise UpstreamTimeout("upstream took too long")          # the task's OWN TimeoutError (no timeout label involved): it is the raised exception that must be stored
         if outcome == 'base': ev.append(('task_end',)); raise MyBase("base")
         if outcome == 'noresult': ev.append(('task_end',)); raise NoResultError()
         ev.append(('task_end',)); return ('ret', x)
@@ -244,7 +246,7 @@ def monitor(cfg, ev, raised):
     elif saves:
         _, tid, is_err, rv, err, lbl = saves[0]
         if tid != 'id-1': f.append(f"C06/C07: stored under {tid!r}")
-        want_err = {'return': None, 'raise': 'ValueError', 'base': 'MyBase', 'timeout': 'TimeoutError'}[oc]
+        want_err = {'return': None, 'raise': 'ValueError', 'raise_timeout_subclass': 'UpstreamTimeout', 'base': 'MyBase', 'timeout': 'TimeoutError'}[oc]
         if is_err != (want_err is not None) or err != want_err: f.append(f"C07: stored is_err={is_err} error={err} for outcome {oc}")
         if oc == 'return' and rv != repr(('ret', 41)): f.append(f"C07: stored return value {rv}")
         if lbl.get('lbl') != 7: f.append(f"C07: stored labels {lbl}")
@@ -311,7 +313,7 @@ def run(sc):
     for ack_time in acks:
         for ackable in ackables:
             for ack_async in ([sc['ack_async']] if isinstance(sc.get('ack_async'), bool) else [False, True, 'awaitable-object']):
-                for outcome in ('return', 'raise', 'base', 'noresult', 'timeout', 'timeout0'):
+                for outcome in ('return', 'raise', 'raise_timeout_subclass', 'base', 'noresult', 'timeout', 'timeout0'):
                     for backend_fails in (False, True):
                         for async_target in (True, False):
                             if outcome in ('timeout', 'timeout0') and not async_target: continue
